@@ -68,4 +68,9 @@ TEXTS = {
         "level_text": "Exploration: 40k (quick) / 600k (thorough) round trips over the 36 (format, pixel type) pairs of the write-support tables, widths covering every padding residue (BMP mod 4, 1/2/4-bit rows mod 8, TIFF tile edges 16/32 with exact multiples), organisations whole/sub-view/sub-sampled/flipped/transposed, four content kinds, file name / FILE* / std stream on both the write and the read side (optionally crossing them), TIFF none/LZW/deflate/packbits x strips/tiles.",
         "level_note": "Temporary files live in the check's build directory. libpng/libjpeg/libtiff are trusted to be inverse to themselves; GIL's use of them is what is exercised.",
     },
+    "C13": {
+        "technique": "rapidcheck-generated valid files (GIL writers, hand-serialised BMP/TARGA/PNM variants, corpus files) and read recipes; differential of every read path against the full native read_image; guard-page destinations with identity tags",
+        "level_text": "Exploration: 15k (quick) / 240k (thorough) (file, recipe) cases over 6 formats and 97 file variants (bottom-up/top-down, 1/4/8-bit palette, RLE4/RLE8, 16/24/32-bit BMP; ASCII and binary PNM; raw/RLE x both origins TARGA; PNG incl. PngSuite palette/tRNS/16-bit; strip/tile x none/LZW/packbits TIFF; JPEG). Per file: three device kinds, read_image_info, EVERY sub-rectangle for images up to 6x6 (11 sampled otherwise), read_view exact / too small in guard-page memory, read_and_convert_image/view to four pixel types vs color_convert of the native read, scanline rows, any_image.",
+        "level_note": "Differential against the implementation's own full read: sound for a consistency property, blind to an error shared by all paths (C12 and the corpus twins p1/p4 cover that side).",
+    },
 }
